@@ -24,7 +24,7 @@ import (
 type RScenario struct {
 	RID  string `json:"rid"`
 	Q    int    `json:"q"`
-	Mode string `json:"mode"` // up | slow | down
+	Mode string `json:"mode"` // up | slow | down | lost (the service takes the receipt, its answer never arrives)
 	Ops  []M    `json:"ops"`
 }
 
@@ -134,14 +134,22 @@ func runReceiptScenario(s RScenario, enc *json.Encoder) {
 	got := []string{}
 	ncs := httptest.NewServer(http.HandlerFunc(func(rw http.ResponseWriter, r *http.Request) {
 		b, _ := io.ReadAll(r.Body)
-		if s.Mode == "slow" {
-			time.Sleep(250 * time.Millisecond)
-		}
 		var p ncsclient.ReceiptPayload
 		json.Unmarshal(b, &p)
 		mu.Lock()
 		got = append(got, digest(p.Receipt, p.Hash, p.Signature))
 		mu.Unlock()
+		if s.Mode == "slow" {
+			time.Sleep(250 * time.Millisecond) // slow to answer
+		}
+		if s.Mode == "lost" {
+			if hj, ok := rw.(http.Hijacker); ok {
+				if c, _, err := hj.Hijack(); err == nil {
+					c.Close()
+					return
+				}
+			}
+		}
 		rw.WriteHeader(200)
 	}))
 	endpoint := ncs.URL
@@ -157,6 +165,7 @@ func runReceiptScenario(s RScenario, enc *json.Encoder) {
 	byDigest := map[string]int{}
 	pid := 0
 	seen := 0
+	expected := 0 // deliveries the credit service must see: accepted valid receipts (none when it is down)
 	for i, op := range s.Ops {
 		switch gets(op, "op") {
 		case "submit":
@@ -191,6 +200,9 @@ func runReceiptScenario(s RScenario, enc *json.Encoder) {
 					}
 				}
 			}
+			if resp == "accepted" && isValid(t) && s.Mode != "down" {
+				expected++
+			}
 			enc.Encode(M{"op": "submit", "conn": geti(op, "conn"), "pid": pid, "cls": cls, "valid": isValid(t),
 				"empty": len(t.text) == 0 || len(t.hash) == 0 || len(t.sig) == 0, "resp": resp, "answers": answers, "ret": rec["ret"],
 				"elapsed_ms": el, "qlen": len(w.receipt)})
@@ -204,14 +216,15 @@ func runReceiptScenario(s RScenario, enc *json.Encoder) {
 			rh.HandleReceipts(ctx)
 			enc.Encode(M{"op": "worker"})
 		case "drain":
-			// wait until the queue is empty and the credit service has seen nothing new for a while
-			deadline := time.Now().Add(5 * time.Second)
+			// wait until the queue is empty, the credit service has seen every delivery that is due, and nothing new
+			// has arrived for a while (the wait for what is due does not depend on how fast the worker is)
+			deadline := time.Now().Add(20 * time.Second)
 			last, stable := -1, 0
 			for time.Now().Before(deadline) {
 				mu.Lock()
 				cur := len(got)
 				mu.Unlock()
-				if len(w.receipt) == 0 && cur == last {
+				if len(w.receipt) == 0 && cur == last && cur >= expected {
 					stable++
 					if stable >= 8 {
 						break
